@@ -16,7 +16,10 @@ def entry (ld : String → Val) (pre : Path) (cut : Nat) (fs : Fields) (sel : Op
   match slotOf fs k with
   | .field n => chkVal ld (pre ++ [.key k]) cut false n v
   | .sect cfs => if sel = some k then chkVal ld (pre ++ [.key k]) cut false (.group false cfs) v else .ok ()
-  | .none => if leafless v then .ok () else .error (.unknown (pre ++ [.key k] ++ (deepPath v).map .key) cut)
+  | .none =>
+    match appendSlot fs k with
+    | some (b, n) => if appendOk ld n v then .ok () else .error (.type (pre ++ [.key b]) cut)
+    | none => if leafless v then .ok () else .error (.unknown (pre ++ [.key k] ++ (deepPath v).map .key) cut)
 
 /-- the check of one entry of a class specification -/
 def clsEntry (ld : String → Val) (pre : Path) (cfs : Fields) (k : String) (v : Val) : R :=
@@ -62,9 +65,18 @@ theorem walk_cons (ld pre cut fs sel k v r) :
     · simp only [h]; rfl
   | none =>
     simp only []
-    by_cases h : leafless v = true
-    · simp only [h, if_true]; rfl
-    · simp only [h]; rfl
+    cases ha : appendSlot fs k with
+    | some bn =>
+      obtain ⟨b, n⟩ := bn
+      simp only []
+      by_cases h : appendOk ld n v = true
+      · simp only [h, if_true]; rfl
+      · simp only [h]; rfl
+    | none =>
+      simp only []
+      by_cases h : leafless v = true
+      · simp only [h, if_true]; rfl
+      · simp only [h]; rfl
 
 theorem chkCls_nil (ld pre cfs) : chkCls ld pre cfs [] = .ok () := by
   rw [chkCls]
@@ -333,7 +345,7 @@ theorem okAt_child {ld} {p q : Pos} {seg : Seg} (hp : OkAt ld p) (hc : child p s
               subst hc
               exact ⟨_, _, he⟩
             · simp [hsel] at hc
-          | none => simp [hs] at hc
+          | none => simp only [hs] at hc; split at hc <;> simp at hc
     | null => simp [child] at hc
     | bool b => simp [child] at hc
     | int i => simp [child] at hc
@@ -426,7 +438,7 @@ theorem child_pos_getPath {p q : Pos} {seg : Seg} (hc : child p seg = .pos q) (r
             by_cases hsel : selected fs kvs = some k
             · simp only [hsel, if_true, Next.pos.injEq] at hc; subst hc; rfl
             · simp [hsel] at hc
-          | none => simp [hs] at hc
+          | none => simp only [hs] at hc; split at hc <;> simp at hc
     | null => simp [child] at hc
     | bool b => simp [child] at hc
     | int i => simp [child] at hc
@@ -513,10 +525,14 @@ theorem okAt_child_undefined {ld} {p : Pos} {seg : Seg} {r : Path} {w : Val}
             simp only [hs] at hc
             by_cases hsel : selected fs kvs = some k <;> simp [hsel] at hc
           | none =>
-            simp only [hs] at he
-            by_cases hl : leafless v = true
-            · exact leafless_getPath r hl hg
-            · simp [hl] at he
+            simp only [hs] at he hc
+            cases hap : appendSlot fs k with
+            | some bn => simp [hap] at hc
+            | none =>
+              simp only [hap] at he
+              by_cases hl : leafless v = true
+              · exact leafless_getPath r hl hg
+              · simp [hl] at he
     | null => simp [child] at hc
     | bool b => simp [child] at hc
     | int i => simp [child] at hc
@@ -1447,7 +1463,7 @@ theorem modify_prop {ld} {f : Val → Option Val} :
                       by_cases hsel : selected fs kvs = some k
                       · simp only [hsel, if_true, Next.pos.injEq] at hc; rw [← hc] at this; exact this
                       · simp [hsel] at hc
-                    | none => simp [hs] at hc
+                    | none => simp only [hs] at hc; split at hc <;> simp at hc
                   refine modifyAt_good rest ?_ hm1
                   intro vq vq' hg hfq
                   rw [hq1, Option.some.injEq] at hg
@@ -1474,7 +1490,7 @@ theorem modify_prop {ld} {f : Val → Option Val} :
                       · intro x; unfold entry; simp only [hs, hsel, if_true]
                       · rw [selected_replace_sect hs hsel ha hgood.section_mono, hsel]
                     · simp [hsel] at hc
-                  | none => simp [hs] at hc
+                  | none => simp only [hs] at hc; split at hc <;> simp at hc
                 obtain ⟨n1, hp1, hentry, hselEq⟩ := key
                 subst hp1
                 rw [hentry] at he
@@ -1632,13 +1648,13 @@ theorem insertF_good {z : String} {w : Val} (hl : leafless w = false) :
 
 theorem insert_end_group {ld pre cut item whole fs kvs z w}
     (hok : chkVal ld pre cut item (.group whole fs) (.dict kvs) = .ok ()) (hs : slotOf fs z = .none)
-    (hl : leafless w = false) :
+    (hap : appendSlot fs z = none) (hl : leafless w = false) :
     chkVal ld pre cut item (.group whole fs) (.dict (kvs ++ [(z, w)])) =
       .error (.unknown (pre ++ [.key z] ++ (deepPath w).map .key) (if item then pre.length else cut)) := by
   apply chkVal_group_dict_err
   rw [selected_append_foreign hs, walk_append, walk_of_group_ok' hok, walk_cons, walk_nil]
   unfold entry
-  simp [hs, hl]
+  simp [hs, hap, hl]
 
 theorem insert_end_class {ld pre cut item req imp cls kvs z w}
     (hok : chkVal ld pre cut item (.classArg req imp cls) (.dict kvs) = .ok ())
@@ -1701,7 +1717,12 @@ theorem insert_reported {ld fs kvs path q z w v'}
         · simp [hk] at hfq
         · simp only [hk, Bool.false_eq_true, if_false, Option.some.injEq] at hfq
           subst hfq
-          have := insert_end_group (w := w) hqok hs hl
+          have hap : appendSlot gfs z = none := by
+            simp only [hs] at hfor
+            cases hh : appendSlot gfs z with
+            | none => rfl
+            | some bn => simp [hh] at hfor
+          have := insert_end_group (w := w) hqok hs hap hl
           exact ⟨_, _, hprop _ (by rw [this])⟩
       | field n => simp [hs] at hfor
       | sect cfs => simp [hs] at hfor
